@@ -468,7 +468,8 @@ func runRepro(o *Out, _ *rand.Rand, thorough bool) {
 				}
 			}
 		}
-		c.Solve = &CSolve{Runs: 1, Starts: rng.Intn(2), Det: rng.Intn(2) == 0, Iters: 300 + rng.Intn(500)}
+		c.Solve = &CSolve{Runs: 1, Starts: rng.Intn(2), Det: rng.Intn(2) == 0, Iters: 300 + rng.Intn(500),
+			Mode: []string{"single", "parallel-norestart", "parallel"}[ci%3]}
 		if replayFile != "" {
 			c = loadReplayCase(replayFile)
 			ncases = 1
@@ -477,8 +478,14 @@ func runRepro(o *Out, _ *rand.Rand, thorough bool) {
 			continue
 		}
 		o.Meta.Cases++
+		mode := c.Solve.Mode
+		if mode == "" {
+			mode = "parallel"
+		}
+		o.Count("repro-mode:" + mode)
 		results := map[string]int{}
 		var first string
+		var perRep, sigs []string
 		for rep := 0; rep < reps; rep++ {
 			// a fresh model per repetition: "the same model" means the same input and options
 			bt, err, pan := buildCase(c)
@@ -496,8 +503,26 @@ func runRepro(o *Out, _ *rand.Rand, thorough bool) {
 			case 2:
 				nextroute.VerifHook = scheduleHook(map[string]time.Duration{"worker_send": 2 * time.Millisecond}, nil)
 			}
-			sols, _, serr, span := solveAll(bt.model, nextroute.ParallelSolveOptions{Iterations: c.Solve.Iters, Duration: 30 * time.Second,
-				ParallelRuns: 1, StartSolutions: c.Solve.Starts, RunDeterministically: c.Solve.Det})
+			var sols []nextroute.Solution
+			var serr error
+			var span any
+			popt := nextroute.ParallelSolveOptions{Iterations: c.Solve.Iters, Duration: 30 * time.Second,
+				ParallelRuns: 1, StartSolutions: c.Solve.Starts, RunDeterministically: c.Solve.Det}
+			switch mode {
+			case "single":
+				sols, serr, span = solveSingle(bt.model, c.Solve.Iters, rep%3 == 2)
+			case "parallel-norestart":
+				sols, _, serr, span = solveAllWith(bt.model, popt, func(ps nextroute.ParallelSolver) {
+					ps.SetSolverFactory(func(_ nextroute.ParallelSolveInformation, s nextroute.Solution) (nextroute.Solver, error) {
+						opt := singleSolverOptions()
+						never := 1000000000
+						opt.Restart = nextroute.IntParameterOptions{StartValue: never, DeltaAfterIterations: never, Delta: 0, MinValue: never, MaxValue: never, SnapBackAfterImprovement: true, Zigzag: true}
+						return nextroute.NewSolver(s.Model(), opt)
+					})
+				})
+			default:
+				sols, _, serr, span = solveAll(bt.model, popt)
+			}
 			nextroute.VerifHook = nil
 			if span != nil || serr != nil {
 				o.Count("repro-solve-failed")
@@ -513,6 +538,7 @@ func runRepro(o *Out, _ *rand.Rand, thorough bool) {
 				first = sig
 			}
 			results[sig]++
+			perRep = append(perRep, fmt.Sprintf("%s=%d", []string{"plain", "slow-seq_perm", "slow-consumer"}[rep%3], indexOf(&sigs, sig)))
 		}
 		o.Op(fmt.Sprintf("repro %d", ci), "repro")
 		if len(results) > 1 {
@@ -522,8 +548,22 @@ func runRepro(o *Out, _ *rand.Rand, thorough bool) {
 					other = s
 				}
 			}
-			o.Violate(Violation{Property: "C12", Clause: "results-differ-between-runs", Sig: "C12|results-differ-between-runs",
-				Detail: fmt.Sprintf("%d distinct results in %d runs; first: %.300s || other: %.300s", len(results), reps, first, other), Replay: c})
+			// which perturbations gave a result different from the unperturbed run
+			var devs []string
+			for _, pr := range perRep {
+				if !strings.HasSuffix(pr, "=0") && !strings.HasPrefix(pr, "plain") {
+					d := pr[:strings.Index(pr, "=")]
+					if len(devs) == 0 || devs[len(devs)-1] != d {
+						devs = append(devs, d)
+					}
+				}
+			}
+			devs = uniq(devs)
+			if len(devs) == 0 {
+				devs = []string{"plain"}
+			}
+			o.Violate(Violation{Property: "C12", Clause: "results-differ-between-runs", Sig: "C12|results-differ-between-runs|" + mode + "|" + strings.Join(devs, "+"),
+				Detail: fmt.Sprintf("%d distinct results in %d runs (%s); first: %.300s || other: %.300s", len(results), reps, strings.Join(perRep, " "), first, other), Replay: c})
 		}
 		multi := false
 		for _, f := range c.Features {
@@ -552,3 +592,47 @@ func factoryOutput(sols []nextroute.Solution) string {
 }
 
 var _ = context.Background
+
+func indexOf(l *[]string, s string) int {
+	for i, x := range *l {
+		if x == s {
+			return i
+		}
+	}
+	*l = append(*l, s)
+	return len(*l) - 1
+}
+
+// solveSingle: the single solver as shipped (unplan, plan, restart after 150 iterations without improvement), read by a
+// plain consumer — optionally a slow one.
+func solveSingle(model nextroute.Model, iters int, slowConsumer bool) (sols []nextroute.Solution, err error, pan any) {
+	defer func() {
+		if r := recover(); r != nil {
+			pan = r
+		}
+	}()
+	solver, e := nextroute.NewSolver(model, singleSolverOptions())
+	if e != nil {
+		return nil, e, nil
+	}
+	start, e := nextroute.NewSolution(model)
+	if e != nil {
+		return nil, e, nil
+	}
+	ctx, cancel := solveCtx(60 * time.Second)
+	defer cancel()
+	ch, e := solver.Solve(ctx, nextroute.SolveOptions{Iterations: iters, Duration: 30 * time.Second}, start)
+	if e != nil {
+		return nil, e, nil
+	}
+	for s := range ch {
+		if s.Error != nil {
+			return sols, s.Error, nil
+		}
+		if slowConsumer {
+			time.Sleep(2 * time.Millisecond)
+		}
+		sols = append(sols, s.Solution)
+	}
+	return sols, nil, nil
+}
